@@ -15,6 +15,12 @@ log-densities and log-uniforms that are arbitrary inputs: `accepted_iff` reduces
 the deterministic event `log u < log w − log w_max` in the code's form; the step from that event to a distribution
 (uniformity of the RNG, exactness of the flow density) is assumed, not claimed.  `pool_follows_prior_partial`
 collects the non-statistical clauses for the flow pool.
+
+NOT MODELLED.  The population loops are modelled for `backward_pass(rescale=True)` only, i.e. for
+`use_x_prime_prior = False`.  With a prime prior (GW reparameterisations) `populate` calls
+`backward_pass(rescale=False)`, which does not call `check_prior_bounds`; `pool_in_bounds` and
+`likelihood_args_in_support` say nothing about that branch (`backward_pass_without_rescale_keeps_out_of_bounds`
+exhibits why the bounds clause cannot come from `backward_pass` there), and the harness does not drive it.
 -/
 namespace NessaiVerif.C09
 open NessaiVerif.Pool NessaiVerif.Pool.EV
@@ -29,8 +35,17 @@ theorem check_prior_bounds_sound (cs : List Cand) :
   refine ⟨fun c h => (mem_checkPriorBounds.1 h).2, fun c h hb => mem_checkPriorBounds.2 ⟨h, hb⟩, ?_⟩
   exact List.filter_sublist
 
-/-- Every point of a flow pool (plain and accumulating branch of `FlowProposal.populate`, any number of batches,
-any sizes) went through `check_prior_bounds` of the batch it was drawn in, hence is inside the prior bounds;
+/-- The bounds check of `backward_pass` belongs to its `rescale=True` branch: there every survivor is in bounds; with
+`rescale=False` (what `populate` passes when `use_x_prime_prior` is set) an out-of-bounds candidate with a finite
+density survives.  The pool theorems below are stated for the `rescale=True` branch, the only one modelled. -/
+theorem backward_pass_without_rescale_keeps_out_of_bounds :
+    (∀ cs : List Cand, ∀ c ∈ backwardPassX true cs, c.inb = true) ∧
+      backwardPassX false [⟨0, false, .fin 0, .fin 0⟩] = [⟨0, false, .fin 0, .fin 0⟩] ∧
+      backwardPassX true [⟨0, false, .fin 0, .fin 0⟩] = [] := by
+  refine ⟨fun cs c h => (mem_backwardPass.1 h).2.2, by decide +kernel, by decide +kernel⟩
+
+/-- Every point of a flow pool (plain and accumulating branch of `FlowProposal.populate` with
+`backward_pass(rescale=True)`, any number of batches, any sizes) went through `check_prior_bounds` of the batch it was drawn in, hence is inside the prior bounds;
 no slot of the pool is left unwritten. -/
 theorem pool_in_bounds (z : Bool) (N : Nat) (t : Option EV) (bs : List (List Cand)) (us : List (List EV))
     (P : Population) (hc : P.crashed = false) :
@@ -258,16 +273,19 @@ theorem likelihood_args_in_support (z : Bool) (N : Nat) (t : Option EV) (bs : Li
   exact ⟨hsv.2.2, accepted_prior_finite c m u hsv.2.1 (Or.inl ha)⟩
 
 /-- Prior-rejection pools: the likelihood is called only on accepted candidates, and (given the finite proposal
-density `new_point_log_prob` returns) an accepted candidate has a log-prior that is neither −inf nor NaN. -/
+density `new_point_log_prob` returns) an accepted candidate has a log-prior that is neither −inf nor NaN.
+`RejectionProposal.populate` has no bounds filter of its own: that the arguments are in bounds is inherited from
+`Model.new_point` (hypothesis `hb`; for the default `new_point` it is the range of `np.random.uniform(lower, upper)`). -/
 theorem likelihood_args_in_support_rejection (cands : List Cand) (lus : List EV)
-    (hq : ∀ c ∈ cands, c.logq.isFinite = true) :
-    ∀ c, some c ∈ (populateRejection cands lus).llCalls → c ∈ cands ∧ c.logp ≠ .ninf ∧ c.logp ≠ .nan := by
+    (hq : ∀ c ∈ cands, c.logq.isFinite = true) (hb : ∀ c ∈ cands, c.inb = true) :
+    ∀ c, some c ∈ (populateRejection cands lus).llCalls →
+      c ∈ cands ∧ c.inb = true ∧ c.logp ≠ .ninf ∧ c.logp ≠ .nan := by
   intro c hc
   simp only [populateRejection, List.mem_map, Option.some.injEq] at hc
   obtain ⟨c', hc', rfl⟩ := hc
   obtain ⟨hm, u, ha⟩ := mem_select_rejectMask logWeight _ cands lus c' hc'
   have := accepted_prior_finite c' _ u (hq c' hm) (Or.inr ha)
-  exact ⟨hm, this.1, this.2.1⟩
+  exact ⟨hm, hb c' hm, this.1, this.2.1⟩
 
 /-- Importance sampler: `ImportanceFlowProposal.draw(n)` returns exactly `n` points when its loop ends, each of
 which passed the unit-hypercube mask and has a finite log-prior — these are the arguments `draw_n_samples` hands
@@ -293,18 +311,28 @@ theorem likelihood_args_in_support_ins (n : Nat) (bs : List (List ICand)) (out :
 
 /-- Rescaling a direction `x` to radius `p` (`p * x / ‖x‖`, as `NDimensionalTruncatedGaussian.sample` and
 `draw_truncated_gaussian` do) gives a point of squared norm `p²` (sqrt-free: `s` is any number with `s² = ‖x‖²`,
-`s ≠ 0`); and `p = ppf(u)` with `u ≤ cdf(r·fuzz)` is at most `r·fuzz` for a monotone `ppf` that inverts `cdf` from
-below, so no latent point lies outside the contour: `‖z‖² ≤ (r·fuzz)²`.  Any ordered field (ℚ, ℝ). -/
+`s ≠ 0`); and `p = ppf(u)` with `u ≤ u_max = cdf(r·fuzz)` is at most `r·fuzz` for a monotone `ppf` with
+`ppf(cdf(r·fuzz)) ≤ r·fuzz` (only this instance of "ppf inverts cdf" is used) and `0 ≤ ppf(u)` (a radius), so no
+latent point lies outside the contour: `‖z‖² ≤ (r·fuzz)²`.  Any ordered field (ℚ, ℝ). -/
 theorem radial_norm {K : Type} [Field K] [LinearOrder K] [IsStrictOrderedRing K]
-    (ppf cdf : K → K) (hmono : Monotone ppf) (hinv : ∀ y, ppf (cdf y) ≤ y) (hpos : ∀ u, 0 ≤ ppf u)
-    (r fuzz u s : K) (xs : List K) (hs : s ≠ 0) (hnorm : normSq xs = s * s) (hu : u ≤ cdf (r * fuzz)) :
+    (ppf cdf : K → K) (hmono : Monotone ppf) (r fuzz u s : K) (xs : List K)
+    (hinv : ppf (cdf (r * fuzz)) ≤ r * fuzz) (hpos : 0 ≤ ppf u)
+    (hs : s ≠ 0) (hnorm : normSq xs = s * s) (hu : u ≤ cdf (r * fuzz)) :
     normSq (radialScale (ppf u) s xs) = ppf u * ppf u ∧ ppf u ≤ r * fuzz ∧
       normSq (radialScale (ppf u) s xs) ≤ (r * fuzz) * (r * fuzz) := by
   have h1 : normSq (radialScale (ppf u) s xs) = ppf u * ppf u := by
     rw [normSq_radialScale _ _ hs, hnorm]
     field_simp
-  have h2 : ppf u ≤ r * fuzz := le_trans (hmono hu) (hinv _)
-  exact ⟨h1, h2, by rw [h1]; exact mul_self_le_mul_self (hpos u) h2⟩
+  have h2 : ppf u ≤ r * fuzz := le_trans (hmono hu) hinv
+  exact ⟨h1, h2, by rw [h1]; exact mul_self_le_mul_self hpos h2⟩
+
+/-- `radial_norm` INSTANTIATED (non-vacuity, machine-checked): on ℚ with `ppf = cdf = fun x => max x 0` (monotone,
+`ppf (cdf y) = y` for `y ≥ 0`), contour `r·fuzz = 2·1`, `u = 3/2`, direction `(3,4)` of norm `s = 5`. -/
+example : normSq (radialScale (max (3/2 : ℚ) 0) 5 [3, 4]) ≤ (2 * 1) * (2 * 1) :=
+  (radial_norm (K := ℚ) (fun x => max x 0) (fun x => max x 0)
+    (fun a b h => max_le_max h le_rfl) 2 1 (3/2) 5 [3, 4]
+    (by norm_num) (le_max_right _ _) (by norm_num) (by simp [normSq]; norm_num)
+    (le_max_of_le_left (by decide +kernel))).2.2
 
 /-! ### summary -/
 
@@ -364,11 +392,6 @@ example : ((populatePlain true 1 none [[⟨0, true, .fin 0, .fin 0⟩, ⟨1, tru
 example : hrun {} [⟨[10, 11], [1, 0]⟩, ⟨[20, 21, 22], [2, 0, 1]⟩] [.draw, .draw, .inval, .draw]
     = [.handed 1 0 (some 10), .handed 1 1 (some 11), .ok, .handed 2 1 (some 21)] := by decide +kernel
 
-/-- `radial_norm` is satisfiable: identity `ppf`/`cdf` on ℚ, direction (3,4) of norm 5 rescaled to radius 2 ≤ 2·1 -/
-example : normSq (radialScale (2 : ℚ) 5 [3, 4]) = 2 * 2 ∧ (2 : ℚ) ≤ 2 * 1 := by
-  refine ⟨?_, by norm_num⟩
-  simp [normSq, radialScale]; norm_num
-
 /-- the fill loop: zero-prior draws are skipped, the three slots are filled from two batches -/
 example : newPoints 3 [[⟨0, true, .fin 0, .ninf⟩, ⟨1, true, .fin 0, .fin 0⟩, ⟨2, true, .fin 0, .fin (-1)⟩],
     [⟨3, true, .fin 0, .fin 0⟩, ⟨4, true, .fin 0, .fin 0⟩, ⟨5, true, .fin 0, .fin 0⟩]]
@@ -391,5 +414,102 @@ example : ((insDraw 2
      [⟨3, true, true, true, true, true, .fin 0, .fin 0, .fin 0, false, false⟩,
       ⟨4, true, true, true, true, true, .fin 0, .fin 0, .fin 0, false, false⟩]]).map
       fun r => (r.1.map (·.id), r.2)) = some ([2, 3], 2) := by decide +kernel
+
+/-! ### the theorems applied to concrete instances (every hypothesis discharged by evaluation) -/
+
+/-- `pool_in_bounds`, `likelihood_args_in_support` and `pool_follows_prior_partial` applied to a completed plain
+population (one out-of-bounds, one accepted candidate) -/
+example :
+    let a : Cand := ⟨0, false, .fin 0, .fin 0⟩
+    let c : Cand := ⟨1, true, .fin 0, .fin 0⟩
+    let P : Population := { pool := [some c], llCalls := [some c], nAcc := 1, nProp := 2, batches := 1, rands := 1 }
+    ((∀ s ∈ P.pool, s ≠ none) ∧ ∀ c', some c' ∈ P.pool → c'.inb = true ∧ ∃ b ∈ [[a, c]], c' ∈ checkPriorBounds b) ∧
+    ((∀ s ∈ P.llCalls, s ≠ none) ∧ ∀ c', some c' ∈ P.llCalls → c'.inb = true ∧ c'.logp ≠ .ninf ∧ c'.logp ≠ .nan ∧
+        (c'.logp ≠ .pinf → c'.logp.isFinite = true)) ∧
+    (P.pool.length = 1 ∧ P.llCalls = P.pool ∧
+      ∀ s ∈ P.pool, ∃ c', s = some c' ∧ c'.inb = true ∧ c'.logp ≠ .ninf ∧ c'.logp ≠ .nan) := by
+  intro a c P
+  have h : populatePlain false 1 none [[a, c]] [[.fin (-1), .fin (-1)]] = some P := by decide +kernel
+  exact ⟨pool_in_bounds false 1 none _ _ P rfl (Or.inl h),
+         likelihood_args_in_support false 1 none _ _ P rfl (Or.inl h),
+         pool_follows_prior_partial false 1 none _ _ P rfl (Or.inl h)⟩
+
+/-- the same three, and `flow_pool_size_eq_acc`, applied to a completed accumulating population -/
+example :
+    let c0 : Cand := ⟨0, true, .fin 0, .fin 0⟩
+    let c1 : Cand := ⟨1, true, .fin 0, .fin (-1)⟩
+    let c2 : Cand := ⟨2, true, .fin 0, .fin 0⟩
+    let P : Population := { pool := [some c0, some c2], llCalls := [some c0, some c2], nAcc := 2, nProp := 3,
+                            batches := 2, rands := 1 }
+    (P.pool.length ≤ 2 ∧ (P.broke = false → P.pool.length = 2)) ∧
+    (∀ c', some c' ∈ P.pool → c'.inb = true ∧ ∃ b ∈ [[c0, c1], [c2]], c' ∈ checkPriorBounds b) ∧
+    (∀ c', some c' ∈ P.llCalls → c'.inb = true ∧ c'.logp ≠ .ninf ∧ c'.logp ≠ .nan ∧
+        (c'.logp ≠ .pinf → c'.logp.isFinite = true)) ∧
+    P.pool.length = 2 := by
+  intro c0 c1 c2 P
+  have h : populateAcc false 2 100 none [[c0, c1], [c2]] [false, true]
+      [[.fin (-1/2), .fin (-1/2), .fin (-1/2)]] = some P := by decide +kernel
+  exact ⟨flow_pool_size_eq_acc false 2 100 none _ _ _ P h rfl,
+         (pool_in_bounds false 2 none _ _ P rfl (Or.inr ⟨100, _, h⟩)).2,
+         (likelihood_args_in_support false 2 none _ _ P rfl (Or.inr ⟨100, _, h⟩)).2,
+         (pool_follows_prior_partial false 2 none _ _ P rfl (Or.inr ⟨100, _, h, rfl⟩)).1⟩
+
+/-- `flow_pool_size_eq` applied: the final loop state of a two-batch plain population with `N = 2` -/
+example :
+    let c0 : Cand := ⟨0, true, .fin 0, .fin 0⟩
+    let c1 : Cand := ⟨1, true, .fin 0, .fin 0⟩
+    let st : PlainSt := { arr := [some c0, some c1], nAcc := 2, nProp := 2, writes := [0, 1], batches := 2, rands := 2 }
+    (st.arr.take 2).length = 2 ∧ st.writes = List.range 2 := by
+  intro c0 c1 st
+  have h : plainLoop false 2 none (PlainSt.init 2) [[c0], [c1]] [[.fin (-1)], [.fin (-1)]] = some st := by
+    decide +kernel
+  have := flow_pool_size_eq false 2 none _ _ st h rfl
+  exact ⟨this.1, this.2.2.1⟩
+
+/-- `flow_population_aborts` applied (pre-fix behaviour) and `flow_population_completes` applied (all densities
+finite, `strictZ = true`) -/
+example :
+    (plainLoop true 1 none (PlainSt.init 1) [[⟨0, true, .pinf, .fin 0⟩]] []).map (·.crashed) = some true ∧
+    ({ pool := [some ⟨0, true, .fin 0, .fin 0⟩], llCalls := [some ⟨0, true, .fin 0, .fin 0⟩], nAcc := 1, nProp := 1,
+       batches := 1, rands := 1 } : Population).crashed = false := by
+  refine ⟨flow_population_aborts 1 none (PlainSt.init 1) _ [] [] (by decide) ⟨_, List.mem_cons_self, rfl⟩, ?_⟩
+  exact flow_population_completes true 1 none [[⟨0, true, .fin 0, .fin 0⟩]] [[.fin (-1)]] _
+    (Or.inr (by decide)) (Or.inl (by decide +kernel))
+
+/-- `fill_loop_complete` applied to the run of the fill-loop example above (`keep` = finite log-prior) -/
+example : ∀ s ∈ [some (⟨1, true, .fin 0, .fin 0⟩ : Cand), some ⟨2, true, .fin 0, .fin (-1)⟩],
+    ∃ c, s = some c ∧ c.logp.isFinite = true ∧
+      ∃ b ∈ [[(⟨0, true, .fin 0, .ninf⟩ : Cand), ⟨1, true, .fin 0, .fin 0⟩, ⟨2, true, .fin 0, .fin (-1)⟩]], c ∈ b :=
+  (fill_loop_complete 2 (fun c : Cand => c.logp.isFinite)
+    [[⟨0, true, .fin 0, .ninf⟩, ⟨1, true, .fin 0, .fin 0⟩, ⟨2, true, .fin 0, .fin (-1)⟩]] _ (by decide +kernel)).2
+
+/-- `handout_nodup` and `handout_current_pool` applied to the session of the example above -/
+example :
+    (handedKeys (hrun {} [⟨[10, 11], [1, 0]⟩, ⟨[20, 21, 22], [2, 0, 1]⟩] [.draw, .draw, .inval, .draw])).Nodup ∧
+    ∃ p, 0 < 2 ∧ [(⟨[10, 11], [1, 0]⟩ : Pop), ⟨[20, 21, 22], [2, 0, 1]⟩][2 - 1]? = some p ∧ 1 ∈ p.indices ∧
+      some 21 = p.pool[1]? :=
+  ⟨handout_nodup _ _ (by decide),
+   handout_current_pool [⟨[10, 11], [1, 0]⟩, ⟨[20, 21, 22], [2, 0, 1]⟩] [.draw, .draw, .inval, .draw] 2 1 (some 21)
+     (by decide)⟩
+
+/-- `accepted_prior_finite` applied to an accepted point -/
+example : (⟨0, true, .fin 0, .fin (-1)⟩ : Cand).logp ≠ .ninf :=
+  (accepted_prior_finite ⟨0, true, .fin 0, .fin (-1)⟩ (.fin 0) (.fin (-2)) rfl (Or.inl (by decide +kernel))).1
+
+/-- `likelihood_args_in_support_rejection` applied: all candidates in bounds with finite proposal density -/
+example : ∀ c, some c ∈ (populateRejection
+      [⟨0, true, .fin 0, .ninf⟩, ⟨1, true, .fin 0, .fin 0⟩, ⟨2, true, .fin (1/2), .fin (-1)⟩] [.ninf, .ninf, .ninf]).llCalls →
+    c ∈ [(⟨0, true, .fin 0, .ninf⟩ : Cand), ⟨1, true, .fin 0, .fin 0⟩, ⟨2, true, .fin (1/2), .fin (-1)⟩] ∧
+      c.inb = true ∧ c.logp ≠ .ninf ∧ c.logp ≠ .nan :=
+  likelihood_args_in_support_rejection _ _ (by decide) (by decide)
+
+/-- `likelihood_args_in_support_ins` applied to the importance-sampler draw of the example above -/
+example :
+    let g : Nat → ICand := fun i => ⟨i, true, true, true, true, true, .fin 0, .fin 0, .fin 0, false, false⟩
+    ([g 2, g 3] : List ICand).length = 2 ∧ ∀ c ∈ [g 2, g 3], c.inCube = true ∧ c.logP.isFinite = true ∧
+      c.logW ≠ .pinf ∧ ∃ b ∈ [[(⟨0, false, true, true, true, true, .fin 0, .fin 0, .fin 0, false, false⟩ : ICand),
+        ⟨1, true, true, true, true, true, .ninf, .fin 0, .fin 0, false, false⟩, g 2], [g 3, g 4]], c ∈ b := by
+  intro g
+  exact likelihood_args_in_support_ins 2 _ [g 2, g 3] 2 (by decide +kernel)
 
 end NessaiVerif.C09
